@@ -1,7 +1,7 @@
 """Property id -> check function."""
 import json
 
-from . import addr_checks, cert_checks, client_checks, conn_checks, data_checks, listen_checks
+from . import addr_checks, cert_checks, client_checks, conn_checks, data_checks, gen_checks, listen_checks
 from .common import *
 
 CHECKS = {
@@ -12,6 +12,8 @@ CHECKS = {
     "C05": conn_checks.check_C05,
     "C06": conn_checks.check_C06,
     "C07": client_checks.check_C07,
+    "C08": gen_checks.check_C08,
+    "C09": gen_checks.check_C09,
     "C10": data_checks.check_C10,
     "C11": data_checks.check_C11,
     "C12": data_checks.check_C12,
